@@ -2,7 +2,7 @@
    This file holds nothing but the property theorems (closed by `exact`) and Print Assumptions.
    Model: Sched/Model.v, Agent/Run.v.  Proofs: Sched/Proofs.v, Sched/ProofsFinal.v, Agent/RunProofs.v.
    Tie to the code: tools/props/C03.py.
-   Premises: donech c = true (Schedule is given a done channel, as the agent always does), norepeat c.
+   Premise: norepeat c (no repeatPolicy step).  Since fix f9e55a3 no premise about the done channel is needed.
    Outside the model (documented corner): a step with BOTH retryPolicy and repeatPolicy + continueOn.failure is
    re-entered by its own worker and relaunched by the loop (the model has one worker slot per node); in a stopped
    run retryCount can exceed the extra attempts by one (stop during the retry wait) - C03_attempt_bounds covers it. *)
@@ -13,7 +13,7 @@ From BD.Sched Require Import Model Proofs ProofsFinal Examples.
 
 (* In every reachable state (stopped or not): a step's executions never exceed retryCount + 1, and retryCount never
    exceeds the retry limit - so never more than limit + 1 executions. *)
-Theorem C03_attempt_bounds : forall c : cfg, donech c = true -> norepeat c ->
+Theorem C03_attempt_bounds : forall c : cfg, norepeat c ->
   forall s i, Reach c s -> att (nd s i) <= S (rc (nd s i)) /\ rc (nd s i) <= rlimit (steps c i).
 Proof. exact C03_bounds. Qed.
 Print Assumptions C03_attempt_bounds.
@@ -29,7 +29,7 @@ Print Assumptions C03_no_overlap.
    dependency, precondition met, set-up possible) was executed retryCount + 1 >= 1 times: every attempt but the last
    failed, and the last one failed only if limit + 1 attempts were made - "until the first success or limit extra
    attempts, never more"; a step that is not runnable was never executed. *)
-Theorem C03_exact : forall c : cfg, donech c = true -> norepeat c ->
+Theorem C03_exact : forall c : cfg, norepeat c ->
   forall s, Reach c s -> quiet s -> pc s = LDone -> dry c = false -> forall i, i < nsteps c ->
   (runnable c s i = true ->
      exists last fs, outs (nd s i) = last :: fs /\ allf fs /\
